@@ -195,17 +195,17 @@ class MetricLineReceiver(MetricReceiver, LineOnlyReceiver):
   delimiter = b'\n'
 
   def lineReceived(self, line):
-    if sys.version_info >= (3, 0):
-      line = line.decode('utf-8')
-
     try:
+      if sys.version_info >= (3, 0):
+        line = line.decode('utf-8')
       metric, value, timestamp = line.strip().split()
       datapoint = (float(timestamp), float(value))
     except ValueError:
+      line = repr(line.strip())
       if len(line) > 400:
         line = line[:400] + '...'
       log.listener('invalid line received from client %s, ignoring [%s]' %
-                   (self.peerName, repr(line.strip())[1:-1]))
+                   (self.peerName, line))
       return
 
     self.metricReceived(metric, datapoint)
@@ -223,20 +223,22 @@ class MetricDatagramReceiver(MetricReceiver, DatagramProtocol):
 
   def datagramReceived(self, data, addr):
     (host, _) = addr
-    if sys.version_info >= (3, 0):
-      data = data.decode('utf-8')
 
     for line in data.splitlines():
       try:
+        if sys.version_info >= (3, 0):
+          line = line.decode('utf-8')
         metric, value, timestamp = line.strip().split()
         datapoint = (float(timestamp), float(value))
-
-        self.metricReceived(metric, datapoint)
       except ValueError:
+        line = repr(line.strip())
         if len(line) > 400:
           line = line[:400] + '...'
         log.listener('invalid line received from %s, ignoring [%s]' %
-                     (host, repr(line.strip())[1:-1]))
+                     (host, line))
+        continue
+
+      self.metricReceived(metric, datapoint)
 
 
 class MetricPickleReceiver(MetricReceiver, Int32StringReceiver):
